@@ -648,9 +648,9 @@ fn predict(intent: &Intent, endian: RunTimeEndian, crossver: bool) -> Vec<String
                     }
                     Val::InfoSym(_) => "unencodable".to_string(),
                     Val::InfoSup(x) => format!("{:?}", AV::DebugInfoRefSup(gimli::DebugInfoOffset(*x))).replace(' ', ""),
-                    // dump.rs reports DW_AT_stmt_list only for programs with rows; the generated programs have none.
-                    // Presence of the attribute is checked by check_layout instead.
-                    Val::LineProg => continue,
+                    // (dump.rs drops the attribute of row-less programs only for C12, see EMPTY_LINE_PROGRAM_IS_NOTHING;
+                    // its presence is checked by check_layout as well)
+                    Val::LineProg => "lineprogram".to_string(),
                     Val::Loc(k) => {
                         let (base, pairs) = &u.locs[*k];
                         let mut s = String::from("locs:");
